@@ -310,6 +310,10 @@ def _run_locked(ctx, target, out_path, props_path, module, key, namespace, limit
 
 # the ties that can be run on their own (`python3 -m vlib.gentie --run <target>`): target -> arguments of run()
 STANDALONE = {
+    "f64": dict(target="f64", generated="SSA_F64.lean", module="Props.C03Gen", key="f64", namespace="C03Gen"),
+    "f128": dict(target="f128", generated="SSA_F128.lean", module="Props.C03Gen128", key="f128", namespace="C03Gen128",
+                 deps=[("num", "SSA_Num.lean", "c01gen.lock")]),
+    "geom": dict(target="geom", generated="SSA_Geom.lean", module="Props.C18Gen", key="geom", namespace="C18Gen"),
     "txt": dict(target="txt", generated="SSA_Txt.lean", module="Props.C20Gen", key="txt", namespace="C20Gen"),
     "bitset": dict(target="bitset", generated="SSA_Bitset.lean", module="Props.C08Gen", key="bitset", namespace="C08Gen"),
     "numloops": dict(target="numloops", generated="SSA_NumLoops.lean", module="Props.C01GenLoops", key="numloops",
